@@ -2,6 +2,7 @@ package props
 
 import (
 	"fmt"
+	"math"
 
 	"github.com/advancedclimatesystems/gonnx/ops"
 	"gorgonia.org/tensor"
@@ -42,11 +43,11 @@ func c14Cases(tier string) int {
 	base := (c14Exhaustive() + c14PairsPerCase - 1) / c14PairsPerCase
 	switch tier {
 	case "thorough":
-		return base*len(gen.Data13) + 50000/c14PairsPerCase
+		return base*len(gen.Data13) + 400000/c14PairsPerCase
 	case "race":
 		return base / 4
 	}
-	return base
+	return base + 60000/c14PairsPerCase // the enumerated pairs, then random larger shapes
 }
 
 func init() {
@@ -90,10 +91,21 @@ func c14Run(c *Ctx) {
 				dt = gen.Data13[(pi+int(c.Seed))%len(gen.Data13)]
 			}
 		default:
-			sa = c.R.Shape(0, 5, 9, 400)
-			sb = c.R.Shape(0, 5, 9, 400)
+			sa = c.R.Shape(0, 6, 9, 400)
+			sb = c.R.Shape(0, 6, 9, 400)
 			if c.R.Chance(0.7) { // make them compatible more often
 				sb = compatibleWith(c.R, sa)
+			}
+			if len(sa) >= 3 && c.R.Chance(0.3) { // "one value per channel": (1, C, 1, ..., 1), also without the leading axes
+				sb = make([]int, len(sa))
+				for i := range sb {
+					sb[i] = 1
+				}
+				sb[1] = sa[1]
+				if c.R.Bool() {
+					sb[0] = sa[0]
+				}
+				sb = sb[c.R.Intn(2):]
 			}
 			dt = gen.Data13[c.R.Intn(len(gen.Data13))]
 		}
@@ -102,7 +114,7 @@ func c14Run(c *Ctx) {
 }
 
 func compatibleWith(r *gen.R, sa []int) []int {
-	rank := r.Range(0, 5)
+	rank := r.Range(0, 6)
 	sb := make([]int, rank)
 	for i := range sb {
 		j := len(sa) - rank + i
@@ -133,6 +145,14 @@ func c14Pair(c *Ctx, sa, sb []int, dt ref.DType) {
 			b.Bits[i] = ref.EncF(dtB, b.F(i)+1000)
 		case dtB != ref.Bool && dtB != ref.I8 && dtB != ref.U8 && dtB != ref.C64 && dtB != ref.C128:
 			b.Bits[i] = ref.Wrap(dtB, b.Bits[i]+1000)
+		}
+	}
+	// special values: the broadcast must copy them bit for bit (-0, NaN payloads, infinities)
+	for _, t := range []*ref.T{a, b} {
+		if t.DT.IsFloat() && len(t.Bits) > 0 && c.R.Chance(0.3) {
+			for n := c.R.Range(1, 3); n > 0; n-- {
+				t.Bits[c.R.Intn(len(t.Bits))] = ref.EncF(t.DT, c.R.PickFloat(math.Copysign(0, -1), math.Inf(1), math.Inf(-1), math.NaN(), 0, math.SmallestNonzeroFloat32))
+			}
 		}
 	}
 	desc := fmt.Sprintf("%v|%v|%v|%v", sa, sb, dt, dtB)
